@@ -102,10 +102,14 @@ def run_real(bib, lib_abs, keyof, order, keep):
         mw0 = _LL[okey]
     for i, b in enumerate(lib_abs):
         if mw0 is not None and i == (n + 1) // 2 and i > 0:
+            held = [x.raw for x in lib.blocks]
             try:
                 mw0.transform(lib)
             except Exception:  # noqa
                 pass
+            if [x.raw for x in lib.blocks] != held:
+                # the sorter rearranged the library it was given: reported as such (nothing else can be judged)
+                return {"raised": False, "second": None, "out": [], "unaltered": True, "input_unchanged": False}
         if b["kind"] == "dup":
             # a duplicate wrapper as the LIBRARY makes it: add a block holding the key (unless one is live), add the
             # duplicate, remove the helper again - the wrapper stays at its position
